@@ -154,3 +154,20 @@ func mkScratch(env *Env, prefix string) string {
 	}
 	return d
 }
+
+// runWithTimeout runs cmd and kills it after the given number of seconds.
+func runWithTimeout(cmd *exec.Cmd, secs int) error {
+	if err := cmd.Start(); err != nil {
+		return err
+	}
+	done := make(chan error, 1)
+	go func() { done <- cmd.Wait() }()
+	select {
+	case err := <-done:
+		return err
+	case <-time.After(time.Duration(secs) * time.Second):
+		_ = cmd.Process.Kill()
+		<-done
+		return fmt.Errorf("timeout")
+	}
+}
